@@ -81,7 +81,7 @@ def _effects(draw):
         else:
             t = [draw(st.integers(-1, nt - 1)) for _ in range(a)]
         rows.append({"s": draw(st.integers(0, ns - 1)), "t": t, "o": draw(_u)})
-    return {"kind": "effects", "arity": a, "rows": rows, "strict": draw(st.booleans())}
+    return {"kind": "effects", "arity": a, "rows": rows, "strict": draw(st.booleans()), "int_obs": draw(st.sampled_from([None, None, None, 1, 3, 100]))}
 
 
 @st.composite
@@ -228,6 +228,9 @@ def _check_effects(case):
     sid = np.array([r["s"] for r in rows], dtype=int)
     tid = np.array([r["t"] for r in rows], dtype=int).reshape(len(rows), a)
     obs = np.array([r["o"] for r in rows], dtype=float)
+    if case.get("int_obs"):
+        # outcomes recorded as whole numbers (0/1 calls, counts) in an INTEGER array: the effects are still their exact means
+        obs = np.round(obs * case["int_obs"]).astype(np.int64)
     ref = _oracle_map(sid, tid, obs)
     got = create_single_treatment_effect_map(sample_ids=sid.copy(), treatment_ids=tid.copy(), observation=obs.copy())
     got = {(int(k[0]), int(k[1])): float(v) for k, v in got.items()}
